@@ -36,7 +36,7 @@ MODDIR = os.path.join(common.SPEC, "core")
 MOD = "SymmetryConversion_mc"
 TRACE = "SymmetryConversion_trace"
 ACTIONS = ("Convert", "ConvertAlreadyFull", "Restore", "RestoreNothing", "AddEdges", "AddEdgesAlreadyThere",
-           "AddEdgesFullCore", "RemoveEdges", "RemoveEdgesFullCore")
+           "AddEdgesFullCore", "RemoveEdges", "RemoveEdgesFullCore", "ScaleParams", "ScaleParamsNothing", "Solve")
 
 # tolerances (constants of the adapter)
 RTOL_RATIO = 1e-9   # a measured ratio (stored / built value, reported / full volume ...) is one division of two doubles that
@@ -50,7 +50,11 @@ LETTERS = ("GF", "F", "GFP")   # block stacks of the generated assemblies, by or
 VI_SCALARS = ("power", "massHmBOL", "kgHM", "powerGenerated")
 VI_VECTOR = "mgFlux"
 VI_LIST = "adjMgFlux"
-OTHER_SET = ("flux", "pdens", "buRate")
+OTHER_SET = ("pdens", "buRate")
+# scalar fluxes: as built until scaleParamsRelatedToSymmetry recomputes them from the combined multigroup fluxes (Obs.fx);
+# they are observed through fx and left out of "every other parameter is unchanged"
+FX_SET = ("flux", "fluxAdj")
+FX_ALL = ("flux", "fluxAdj", "fluxGamma")
 PER_ASSEMBLY_NUCLIDES = ("", "U235", "FE", "NA")
 TAG = "percentBu"               # tag that identifies which original an assembly is / is a copy of (never scaled, copied verbatim)
 
@@ -239,7 +243,7 @@ class CoreAdapter:
                     b.p[n] = rng.uniform(0.5, 2.0) * 10.0 ** rng.randrange(0, 7)
                 b.p[VI_VECTOR] = np.array([rng.uniform(0.5, 2.0) * 1e12 for _ in range(3)])   # (its setter makes arrays of lists)
                 b.p[VI_LIST] = [rng.uniform(0.5, 2.0) * 1e10 for _ in range(3)]                # stays a plain list
-                for n in OTHER_SET:
+                for n in OTHER_SET + FX_SET:
                     b.p[n] = rng.uniform(0.5, 2.0)
                 b.p[TAG] = float(o) + k / 16.0
         w.nucs = sorted({n for m in w.M0.values() for n in m})
@@ -291,10 +295,38 @@ class CoreAdapter:
             (w.ec if a["kept"] else self.gc.EdgeAssemblyChanger()).addEdgeAssemblies(w.core)
         elif n == "removeEdges":
             (w.ec if a["kept"] else self.gc.EdgeAssemblyChanger()).removeEdgeAssemblies(w.core)
+        elif n == "scaleParams":
+            self.gc.EdgeAssemblyChanger.scaleParamsRelatedToSymmetry(w.core)
+        elif n == "solve":
+            self.solve(w, a["ps"])
         else:
             raise AssertionError("unknown call " + n)
         self.note_names(w)
         return ""
+
+    def solve(self, w, scales):
+        """Stands for the flux solve: ASSIGN every valued volume-integrated parameter of every block (built value times the
+        scale the action names for the assembly in the x-th occupied cell, sorted) and the scalar fluxes (built values)."""
+        import numpy as np
+
+        kids = sorted(w.core, key=lambda a: (int(a.spatialLocator.i), int(a.spatialLocator.j)))
+        if len(kids) != len(scales):
+            raise AssertionError("solve: %d scales for %d assemblies" % (len(scales), len(kids)))
+        for a, (num, den) in zip(kids, scales):
+            o = self.origin_of(w, a)
+            f = num / den
+            for k, b in enumerate(a):
+                p0 = w.P0[o][k]
+                for name, old in p0.items():
+                    if name in w.vi and _is_nonzero_number(old):
+                        if isinstance(old, list):
+                            b.p[name] = [v * f for v in old]
+                        elif isinstance(old, np.ndarray):
+                            b.p[name] = old * f
+                        else:
+                            b.p[name] = old * f
+                for name in FX_SET:
+                    b.p[name] = p0[name]
 
     # -- projection ----------------------------------------------------------------------------------------
     def origin_of(self, w, a):
@@ -335,13 +367,20 @@ class CoreAdapter:
                 vq.append(float(a.getMass(nuc or None)) / m0)
         blocks = list(a)
         if len(blocks) != len(w.P0[o]):
-            return {"blocks": len(blocks)}, {"blocks": len(blocks)}, {"blocks": len(blocks)}
+            return {"blocks": len(blocks)}, {"blocks": len(blocks)}, {"blocks": len(blocks)}, None
         ps, changed = [], []
+        fx = True
         is_orig = id(a) in w.oid
         for k, b in enumerate(blocks):
             p0 = w.P0[o][k]
             for name, old in p0.items():
                 if not is_orig and name in COPY_DIFF_BLK:
+                    continue
+                if name in FX_ALL:
+                    try:
+                        fx = fx and _same(b.p[name], old)
+                    except Exception:  # noqa: BLE001
+                        fx = False
                     continue
                 try:
                     new = b.p[name]
@@ -371,7 +410,13 @@ class CoreAdapter:
             if not _same(new, old):
                 changed.append("assembly.%s" % name)
         other = [1, 1] if not changed else {"changed": sorted(set(changed))[:8]}
-        return _as_rational(vq), _as_rational(ps), other
+        psr = _as_rational(ps)
+        if isinstance(psr, dict) and "inconsistent" in psr:
+            # projection rule (Obs.ps): values that are no common multiple of the built values project to <<0, 0>> ("mixed"),
+            # which the specification expects only after scaleParamsRelatedToSymmetry has paired assemblies of different origin
+            w.last_notes.append("parameter scales of original %d are not uniform: %s" % (o, psr["inconsistent"]))
+            psr = [0, 0]
+        return _as_rational(vq), psr, other, fx
 
     def project(self, w):
         core = w.core
@@ -394,14 +439,16 @@ class CoreAdapter:
         asm = []
         owned = []
         vol_ok = True
+        w.last_notes = []
         for a in kids:
             o = self.origin_of(w, a)
             sfs = {float(b.getSymmetryFactor()) for b in a} | {float(a.getSymmetryFactor())}
             sf = sfs.pop() if len(sfs) == 1 else {"blocksDiffer": sorted(sfs)}
             if o < 1:
-                asm.append({"o": o, "orig": False, "rot": self.rot_of(a), "sf": sf, "vq": None, "vqv": None, "ps": None, "other": None})
+                asm.append({"o": o, "orig": False, "rot": self.rot_of(a), "sf": sf, "vq": None, "vqv": None, "ps": None, "fx": None,
+                            "other": None})
             else:
-                vq, ps, other = self.measure(w, a, o)
+                vq, ps, other, fx = self.measure(w, a, o)
                 # projection rule (see Obs.vqv in the specification): the volume of an original assembly on the 120-degree
                 # line is not projected
                 if id(a) in w.oid and cell_class(cell_of(a)) == "line120":
@@ -411,7 +458,7 @@ class CoreAdapter:
                     vqv = _as_rational([float(a.getVolume()) / w.V0[o]])
                 asm.append({"o": o, "orig": id(a) in w.oid, "rot": self.rot_of(a),
                             "sf": int(sf) if isinstance(sf, float) and sf == int(sf) else sf, "vq": vq, "vqv": vqv, "ps": ps,
-                            "other": other})
+                            "fx": fx, "other": other})
             owned.append(_owned_ids(a))
         shared = 0
         notes = []
@@ -454,8 +501,8 @@ class CoreAdapter:
         return {
             "sym": symname, "mult": core.powerMultiplier, "cells": cells, "asm": asm, "byLoc": by_loc, "where": where,
             "nameFinds": name_finds, "blkFinds": blk_finds, "staleNames": stale_names, "staleBlks": len(stale_owner),
-            "count": len(core), "pool": self.pool_size(w) - w.pool0, "shared": shared, "namesUnique": len(set(names)) == len(names) and len(set(bnames)) == len(bnames),
-            "origNamesKept": kept, "freshNames": bool(w.fresh_ok), "volOk": vol_ok, "notes": notes,
+            "count": len(core), "parOk": all(x["ps"] != [0, 0] for x in asm), "pool": self.pool_size(w) - w.pool0, "shared": shared, "namesUnique": len(set(names)) == len(names) and len(set(bnames)) == len(bnames),
+            "origNamesKept": kept, "freshNames": bool(w.fresh_ok), "volOk": vol_ok, "notes": notes + w.last_notes,
         }
 
     # -- totals against the specification's coefficient vectors ---------------------------------------------
@@ -488,7 +535,7 @@ class CoreAdapter:
             exp["volume"] = lin(vol, lambda o: w.V0[o])
         for nuc in w.nucs:
             exp["mass." + (nuc or "all")] = lin(vol, lambda o: w.M0[o].get(nuc, 0.0))
-        for p in VI_SCALARS:
+        for p in (VI_SCALARS if obs["d"]["parOk"] else ()):
             q = lambda o, p=p: math.fsum(float(b[p]) for b in w.P0[o])  # noqa: E731
             e = lin(par, q)
             exp["param.%s" % p] = e
@@ -501,10 +548,10 @@ class CoreAdapter:
                 return ".total.%s: expected %r, observed %r" % (what, e, g)
         return None
 
-    def compare(self, w, obs):
+    def compare(self, w, obs, totals=True):
         got = self.project(w)
         d = rp.diff(obs["d"], got)
-        if d is None:
+        if d is None and totals:
             d = self.check_totals(w, obs)
         return d, got
 
@@ -599,7 +646,9 @@ def step_check(ad, w, root, steps, prev, obs_of):
     exp = obs_of.get(e["_tk"])
     try:
         ad.apply(w, e["act"])
-        d, got = ad.compare(w, exp)
+        # a call that leaves the abstract state where it was: the whole projection is compared again, the (costly) core totals
+        # only where the state has changed
+        d, got = ad.compare(w, exp, totals=e["_fk"] != e["_tk"])
     except Exception as ex:  # noqa: BLE001  an exception escaping a legal call or query is a verdict
         import traceback
 
@@ -692,7 +741,9 @@ def cover(graph, ad, obs_of, max_walk, max_calls):
 # code -> spec: random histories on random patterns
 # ------------------------------------------------------------------------------------------------------------
 CALLS = [{"n": "convert", "kept": False}, {"n": "restore", "kept": False}, {"n": "addEdges", "kept": True},
-         {"n": "addEdges", "kept": False}, {"n": "removeEdges", "kept": True}, {"n": "removeEdges", "kept": False}]
+         {"n": "addEdges", "kept": False}, {"n": "removeEdges", "kept": True}, {"n": "removeEdges", "kept": False},
+         {"n": "scaleParams", "kept": False}, {"n": "scaleParams", "kept": False},
+         {"n": "solve", "kept": False, "mode": "physical"}, {"n": "solve", "kept": False, "mode": "asis"}]
 
 
 def random_pattern(rng, dom):
@@ -714,10 +765,29 @@ def random_pattern(rng, dom):
 def drive(ad, w, calls, tid, pat, with_totals):
     """run the calls on the real code; the trace for TLC, and (on the side) the totals the core reported after each call"""
     ev, totals = [], []
+    last = ad.project(w)
+    sf0 = {x["o"]: x["sf"] for x in last["asm"] if x["orig"]}     # factors the built values were written under (measured)
     for a in calls:
+        a = dict(a)
+        if a["n"] == "scaleParams" and last["sym"] != "third":
+            continue      # the call is meant for a third core that carries its edge assemblies (precondition of the action)
+        if a["n"] == "solve" and "ps" not in a:
+            # the values a driver writes are inputs, logged with the event: either what a solver would write for the part of
+            # each assembly that is modelled now (built factor / current factor, both as measured), or the present values again
+            mode = a.pop("mode", "physical")
+            a["ps"] = []
+            for x in last["asm"]:
+                cur = x["ps"]
+                if mode == "asis" and isinstance(cur, list) and cur != [0, 0]:
+                    a["ps"].append(cur)
+                else:
+                    sfn = x["sf"] if isinstance(x["sf"], int) and x["sf"] > 0 else 1
+                    f = Fraction(int(sf0.get(x["o"], 1)) if isinstance(sf0.get(x["o"], 1), int) else 1, sfn)
+                    a["ps"].append([f.numerator, f.denominator])
         try:
             ad.apply(w, a)
             post = ad.project(w)
+            last = post
             post.pop("notes", None)
             ev.append({"a": a, "post": post})
             if with_totals:
@@ -753,7 +823,7 @@ def check_side_totals(rep, ad, res, side, prefix):
         k = p["at"] - 1
         if k >= len(totals):
             continue
-        obs = {"vol": p["vol"], "par": p["par"], "full": p["full"], "d": {"mult": p["mult"], "volOk": p["volOk"]}}
+        obs = {"vol": p["vol"], "par": p["par"], "full": p["full"], "d": {"mult": p["mult"], "volOk": p["volOk"], "parOk": p["parOk"]}}
         d = ad.check_totals(w, obs, measured=totals[k])
         n += 1
         if d:
@@ -793,7 +863,8 @@ def run(rep, tier, seed):
     thorough = tier == "thorough"
     sfx = "_thorough" if thorough else ""
     tlc.sany(MOD, MODDIR)
-    tlc.sany(TRACE, MODDIR)
+    if thorough:
+        tlc.sany(TRACE, MODDIR)      # (quick: the trace-validation run parses it; a parse error there is a MachineryError too)
     rep.exhaustive = True
 
     # 1. exhaustive model checking of the reference design
@@ -807,6 +878,14 @@ def run(rep, tier, seed):
         never = [a for a in ACTIONS if res.coverage.get(a, (0, 0))[1] == 0]
         if never:
             raise tlc.MachineryError("vacuous: actions never taken in %s: %s" % (cfg, never))
+
+        # 1a. non-vacuity of the invariants about the flows through scaleParamsRelatedToSymmetry (thorough: TLC witnesses over 4
+        #     calls; quick: the same flows are looked up in the emitted graph, see phase_walks)
+        for wcfg, inv in () if not thorough else (("SymmetryConversion_witness_combined.cfg", "NeverCombined"), ("SymmetryConversion_witness_trip.cfg", "NeverScaledTrip")):
+            wres = tlc.run(MOD, wcfg, MODDIR, workers=4, want_prints=False, coverage=False, timeout=600)
+            rep.add_tlc("witness:" + inv, wres)
+            if not wres.violation or wres.violation["name"] != inv:
+                raise tlc.MachineryError("vacuous: TLC did not reach the flow that %s witnesses" % inv)
 
         # 1b. the literal restore clause (I2): refuted by TLC on the reference; what the real code does is reported as a note
         lit = tlc.run(MOD, "SymmetryConversion_lit.cfg", MODDIR, want_prints=False, coverage=False, timeout=3000)
@@ -865,6 +944,13 @@ def phase_walks(rep, thorough, seed):
     obs_of = {rp.skey(p["st"]): p["obs"] for p in eres.prints if isinstance(p, dict) and "st" in p}
     edges = [p for p in eres.prints if isinstance(p, dict) and "act" in p]
     g = rp.Graph(edges)
+    # non-vacuity: the two flows through scaleParamsRelatedToSymmetry are in the graph that is walked
+    for flow_ in (["AddEdges", "ScaleParamsNothing", "RemoveEdges"], ["AddEdges", "Solve", "ScaleParams"]):
+        front = [e for e in g.edges if e["act"]["br"] == flow_[0] and e["_fk"] != e["_tk"]]
+        for br in flow_[1:]:
+            front = [e2 for e in front for e2 in g.succ.get(e["_tk"], ()) if e2["act"]["br"] == br]
+        if not front:
+            raise tlc.MachineryError("vacuous: no emitted behaviour contains %s" % flow_)
     ad = CoreAdapter(seed, all_cells=conf[0]["all"])
     # deterministic cap on the number of real calls (quick: the whole graph is walked; thorough: ~13 k calls cover it)
     nsteps, ndone, nontriv, nworlds, divs, left = cover(g, ad, obs_of, max_walk=60, max_calls=16000 if thorough else 4000)
@@ -893,7 +979,7 @@ def phase_walks(rep, thorough, seed):
 def phase_traces(rep, thorough, seed):
     """3. code -> spec"""
     dom = dom_r5()
-    ntr, nev = (150, 12) if thorough else (30, 8)
+    ntr, nev = (150, 12) if thorough else (24, 8)
     adT = CoreAdapter(seed + 1, all_cells=dom["all"])
     traces, side = drive_traces(adT, ntr, nev, seed, dom["dom"], n_totals=20 if thorough else 4)
     bad, stats = tracecheck.validate(TRACE, "SymmetryConversion_trace.cfg", MODDIR, traces, timeout=3000)
@@ -950,8 +1036,8 @@ def check_universe(res, all_cells, dom=None):
 
 def reactor_history(rep, seed):
     calls = [{"n": "convert", "kept": False}, {"n": "restore", "kept": False}, {"n": "addEdges", "kept": True},
-             {"n": "convert", "kept": False}, {"n": "addEdges", "kept": True}, {"n": "restore", "kept": False},
-             {"n": "removeEdges", "kept": True}]
+             {"n": "scaleParams", "kept": False}, {"n": "solve", "kept": False, "mode": "physical"},
+             {"n": "scaleParams", "kept": False}, {"n": "removeEdges", "kept": True}]
     universe = hexagon(9)
     ad = ReactorAdapter(seed, all_cells=universe)
     w = ad.build_reactor()
@@ -1087,8 +1173,9 @@ def corrupted_traces():
     return missed
 
 
-def source_mutant(owner, name, old, new, count=1):
-    """context manager factory: the function owner.name with `old` replaced by `new` in its source text"""
+def source_mutant(owner, name, old, new=None, count=1):
+    """context manager factory: the function owner.name with `old` replaced by `new` in its source text
+    (or, with a list of (old, new) pairs as `old`, all of them replaced)"""
     import inspect
     import textwrap
 
@@ -1097,10 +1184,12 @@ def source_mutant(owner, name, old, new, count=1):
     raw = owner.__dict__[name]
     fn = raw.__func__ if isinstance(raw, (staticmethod, classmethod)) else raw
     src = textwrap.dedent(inspect.getsource(fn))
-    if src.count(old) < 1:
-        raise tlc.MachineryError("mutant text %r not found in %s.%s" % (old, getattr(owner, "__name__", owner), name))
+    for o_, n_ in (old if isinstance(old, list) else [(old, new)]):
+        if src.count(o_) < 1:
+            raise tlc.MachineryError("mutant text %r not found in %s.%s" % (o_, getattr(owner, "__name__", owner), name))
+        src = src.replace(o_, n_, count)
     ns = {}
-    exec(compile(src.replace(old, new, count), "<mutant of %s>" % name, "exec"), fn.__globals__, ns)  # noqa: S102
+    exec(compile(src, "<mutant of %s>" % name, "exec"), fn.__globals__, ns)  # noqa: S102
     return lambda: patched(owner, name, ns[fn.__name__])
 
 
@@ -1193,6 +1282,24 @@ def mutants():
         ("addEdgeAssemblies overwrites a filled edge cell",
          S(E, "addEdgeAssemblies", "if core.childrenByLocator.get(spatialLocator):", "if False:")),
         ("addEdgeAssemblies copies the 60-degree line", S(E, "addEdgeAssemblies", "grids.BOUNDARY_0_DEGREES", "grids.BOUNDARY_60_DEGREES")),
+        # -- assigned-since-the-last-transformation flags and scaleParamsRelatedToSymmetry ----------------------------
+        ("addEdgeAssemblies clears the assignment flags BEFORE adding the copies (Core.add raises them again)",
+         S(E, "addEdgeAssemblies", [
+             ("    # Move the assemblies into their reflective position on symmetry line 3\n",       # (source dedented by 4)
+              "    parameters.ALL_DEFINITIONS.resetAssignmentFlag(SINCE_LAST_GEOMETRY_TRANSFORMATION)\n"),
+             ("    parameters.ALL_DEFINITIONS.resetAssignmentFlag(\n        SINCE_LAST_GEOMETRY_TRANSFORMATION\n    )\n", "    pass\n"),
+         ])),
+        ("addEdgeAssemblies does not clear the assignment flags at all",
+         S(E, "addEdgeAssemblies", "parameters.ALL_DEFINITIONS.resetAssignmentFlag(", "(lambda *a: None)(")),
+        ("scaleParamsRelatedToSymmetry scales parameters whether or not they were assigned since the transformation",
+         S(gc, "_generateListOfParamsToScale", ".since(SINCE_LAST_GEOMETRY_TRANSFORMATION)", "")),
+        ("scaleParamsRelatedToSymmetry overwrites with the twin's value instead of adding it",
+         S(gc, "_scaleParamsInBlock", "b.p[paramName] = b.p[paramName] + bSymmetric.p[paramName]", "b.p[paramName] = bSymmetric.p[paramName]")),
+        ("scaleParamsRelatedToSymmetry leaves the multigroup fluxes alone",
+         S(gc, "_scaleParamsInBlock", "_scaleFluxValues(b, bSymmetric, paramName)", "pass")),
+        ("scaleParamsRelatedToSymmetry pairs the two lines in opposite order",
+         S(E, "scaleParamsRelatedToSymmetry", "core.getAssembliesOnSymmetryLine(grids.BOUNDARY_120_DEGREES),",
+           "core.getAssembliesOnSymmetryLine(grids.BOUNDARY_120_DEGREES)[::-1],")),
         ("removeEdgeAssemblies removes only what the changer added itself",
          S(E, "removeEdgeAssemblies", "edgeAssemblies = core.getAssembliesOnSymmetryLine(grids.BOUNDARY_120_DEGREES)",
            "edgeAssemblies = list(self._newAssembliesAdded)")),
